@@ -364,6 +364,11 @@ func extractPaddingFromData(data []byte, pubKeySize, sigKeySize int) []byte {
 	if paddingSize <= 0 {
 		return nil
 	}
+	// A key that does not fit its inline field (P521, RSA) leaves no
+	// well-defined padding region; the caller rejects such key types.
+	if pubKeySize > KEYS_AND_CERT_PUBKEY_SIZE || sigKeySize > KEYS_AND_CERT_SPK_SIZE {
+		return nil
+	}
 	padding := make([]byte, paddingSize)
 	pubPaddingSize := KEYS_AND_CERT_PUBKEY_SIZE - pubKeySize
 	sigPaddingSize := KEYS_AND_CERT_SPK_SIZE - sigKeySize
